@@ -634,7 +634,7 @@ impl Sim {
                 }
                 if running && si.healthy() && si.closed.is_none() && !self.closed {
                     self.findings.push(Finding {
-                        class: "binding",
+                        class: "binding-stalled",
                         sig: "reqrep/rejected-replier-not-closed".into(),
                         detail: format!("{}: rejected replier {} received the replier-already-bound error but its stream was never closed and no wake-up is outstanding", at, pe.label),
                     });
@@ -677,7 +677,7 @@ impl Sim {
                 bound_live.push(r);
             } else if running && !self.closed {
                 self.findings.push(Finding {
-                    class: "binding",
+                    class: "binding-stalled",
                     sig: "reqrep/replier-ignored".into(),
                     detail: format!("{}: replier {} registered at t={:?} is neither served nor rejected, every sink is ready and no wake-up is outstanding", at, pe.label, pe.reg_sent),
                 });
